@@ -155,12 +155,14 @@ Definition first_learns (ps : pstate) (e : nevent) (o : nobs) : bool :=
   | _ => true
   end.
 
-(* C01 after a get: if a live node other than the reader holds the key and the reader knows a live server, the value is found *)
-Definition c01_pb (ps : pstate) (e : nevent) (o : nobs) (before : list (list nat * list nat)) : bool :=
+(* C01 after a get: if a live node other than the reader acknowledged a write of the key (it held the key when a put of
+   it returned Ok: `acked`, kept over the history - the servers' stores are far from full in these histories, or
+   configured to be large enough) or holds it now, and the reader knows a live server, the value is found *)
+Definition c01_pb (ps : pstate) (e : nevent) (o : nobs) (before : list (list nat * list nat)) (acked : list nat) : bool :=
   match e with
   | EGet r k | EGetS r k | EPutGet r k | EGetJoin r k =>
       if p_alive (pget ps r)
-      then let holder := existsb (fun c => live_server ps c && negb (Nat.eqb c r)) (b_prev o) in
+      then let holder := existsb (fun c => live_server ps c && negb (Nat.eqb c r)) (b_prev o ++ acked) in
            let knows_live := existsb (live_server ps) (main_of before r) in
            if holder && knows_live then match b_flag o with Some true => true | _ => false end else true
       else true
@@ -173,18 +175,31 @@ Definition c01_pb (ps : pstate) (e : nevent) (o : nobs) (before : list (list nat
   | _ => true
   end.
 
+Definition ev_key (e : nevent) : option nat :=
+  match e with
+  | EGet _ k | EGetS _ k | EPutGet _ k | EGetJoin _ k | EPut _ k | EPutS _ k => Some k
+  | _ => None
+  end.
+Fixpoint acked_get (k : nat) (a : list (nat * list nat)) : list nat :=
+  match a with [] => [] | (k', l) :: r => if Nat.eqb k k' then l ++ acked_get k r else acked_get k r end.
+
 (* returns (the property holds on every step outside the known class, some step falls into the known class F23:
    a get that joined an active lookup of another kind for the same target found nothing) *)
-Fixpoint run13_pb (ps : pstate) (before : list (list nat * list nat)) (crashed : bool) (steps : list (nevent * nobs)) : bool * bool :=
+Fixpoint run13_pb (ps : pstate) (before : list (list nat * list nat)) (crashed : bool) (acked : list (nat * list nat))
+         (steps : list (nevent * nobs)) : bool * bool :=
   match steps with
   | [] => (true, false)
   | (e, o) :: r =>
       let ps' := papply ps e in
       let crashed' := crashed || match e with ECrash _ => true | _ => false end in
       let c13 := if crashed' then true else c13_pb ps' e o && first_learns ps' e o in
-      let c01 := c01_pb ps' e o before in
+      let c01 := c01_pb ps' e o before (match ev_key e with Some k => acked_get k acked | None => [] end) in
       let is_join := match e with EGetJoin _ _ => true | _ => false end in
-      let '(ok, known) := run13_pb ps' (b_tables o) crashed' r in
+      let acked' := match e, b_flag o with
+                    | (EPut _ k | EPutS _ k | EPutGet _ k), Some true => (k, b_stored o) :: acked
+                    | _, _ => acked
+                    end in
+      let '(ok, known) := run13_pb ps' (b_tables o) crashed' acked' r in
       (c13 && (c01 || is_join) && ok, (is_join && negb c01) || known)
   end.
 
@@ -215,7 +230,7 @@ Definition check13 (c : c13case) : list N :=
       (* every put succeeds in an honest network; floors for the success rate of reads far below the measured 100 % *)
       if (N.eqb put_ok puts && N.leb (90 * gets) (100 * found) && N.leb (75 * gets_c) (100 * found_c))%bool then [] else [2%N]
   | KNet steps =>
-      let '(ok, known) := run13_pb [] [] false steps in
+      let '(ok, known) := run13_pb [] [] false [] steps in
       (if run13_model [] steps then [] else [1%N]) ++ (if ok then [] else [2%N]) ++ (if known then [123%N] else [])
   end.
 
